@@ -138,9 +138,15 @@ type Check struct {
 	// every property quantifies over inputs on which the tool is expected to produce a result).
 	CrashSig func(stderrTail string) string
 	// Extra lets a check add coordinator-level keys to the evidence (and extra violations).
-	Extra func(a *Aggregate)
-	// NeedsCoca: build product paths are passed by check.sh through env.
+	Extra      func(a *Aggregate)
 	MaxSamples int
+	// CaseWatchdog is the wall-clock cap of one case inside a worker (default 180 s; typical cases take milliseconds).
+	// A case that hits it is re-run alone with twice the cap.
+	CaseWatchdog time.Duration
+	// WatchdogIsViolation: for properties with a termination clause, a case that hits the watchdog in the worker AND
+	// again alone in a fresh process is reported as a violation (labelled as wall-clock based); otherwise it is
+	// inconclusive.
+	WatchdogIsViolation bool
 }
 
 // Aggregate is what the coordinator accumulated.
@@ -159,6 +165,7 @@ type Aggregate struct {
 	Violations     []CaseViolation
 	Extra          map[string]interface{}
 	fallbackSample interface{}
+	sigSeen        map[string]bool
 	BinDir         string
 	CocaBin        string
 }
@@ -327,10 +334,13 @@ func runWorker(chk *Check, tier string, seed int64, spec, out string, from int, 
 	root := scratchRoot(chk.ID)
 	defer os.RemoveAll(root)
 	n := chk.Cases(tier)
-	wd := caseWatchdog
+	wd := chk.watchdog()
 	if v := envInt("VERIF_WATCHDOG_S", 0); v > 0 {
 		wd = time.Duration(v) * time.Second
 	}
+	violating := 0
+	knownSigs := loadKnown(chk.ID)
+	violationLimit := int(envInt("VERIF_WORKER_VIOLATION_LIMIT", 40))
 	for j := from; j < n; j++ {
 		if j%k != i {
 			continue
@@ -353,10 +363,39 @@ func runWorker(chk *Check, tier string, seed int64, spec, out string, from int, 
 		if err != nil {
 			b, _ = json.Marshal(&Outcome{Case: j, Status: "inconclusive", Inconclusive: "outcome not serialisable: " + err.Error()})
 		}
+		if len(b) > 1<<20 {
+			// a huge witness (e.g. a graph of tens of thousands of edge lines) is not shipped to the coordinator:
+			// the case is a pure function of (seed, index) and --replay regenerates it
+			o.Witness = fmt.Sprintf("witness omitted (%d bytes); the replay command regenerates the case", len(b))
+			o.Sample = nil
+			b, _ = json.Marshal(o)
+		}
 		fmt.Fprintf(f, "E %s\n", b)
+		unknown := false
+		for _, v := range o.Violations {
+			if _, ok := knownSigs[v.Sig]; !ok {
+				unknown = true
+			}
+		}
+		if unknown {
+			violating++
+			if violating >= violationLimit {
+				// enough witnesses from this worker: on a broken tree every further case only costs time
+				// (the run is reported as violated either way; the evidence shows how many cases ran)
+				fmt.Fprintf(f, "X %d\n", j)
+				break
+			}
+		}
 	}
 	f.Close()
 	os.RemoveAll(root)
+}
+
+func (c *Check) watchdog() time.Duration {
+	if c.CaseWatchdog > 0 {
+		return c.CaseWatchdog
+	}
+	return caseWatchdog
 }
 
 func (c *Check) maxSamples() int {
@@ -542,6 +581,7 @@ func coordinate(chk *Check, tier string, seed int64, binDir, cocaBin string) int
 		go func(i int) {
 			defer wg.Done()
 			from := 0
+			wdCount, deathCount := 0, 0
 			for attempt := 0; attempt < 200; attempt++ {
 				logf := filepath.Join(logDir, fmt.Sprintf("w%d-%d.log", i, attempt))
 				cmd := exec.Command(os.Args[0], "--tier", tier, "--worker", fmt.Sprintf("%d/%d", i, k), "--out", logf, "--from", strconv.Itoa(from))
@@ -588,19 +628,28 @@ func coordinate(chk *Check, tier string, seed int64, binDir, cocaBin string) int
 					return
 				}
 				// confirm the open case alone in a fresh process
-				var o *Outcome
+				o := singleInChild(chk, tier, seed, open, 2*chk.watchdog())
 				if watchdog {
-					o = singleInChild(chk, tier, seed, open, 10*caseWatchdog)
+					wdCount++
 					if o.Status == "watchdog" {
 						o.Violations = nil
+						if chk.WatchdogIsViolation {
+							o.Status = "violation"
+							o.Violations = []Violation{{Sig: "no-termination/watchdog", Msg: fmt.Sprintf("case did not return within %s in the worker nor within %s alone in a fresh process (wall-clock based verdict)", chk.watchdog(), 2*chk.watchdog())}}
+						}
 					}
 				} else {
-					o = singleInChild(chk, tier, seed, open, 10*caseWatchdog)
+					deathCount++
 				}
 				o.Case = open
 				mu.Lock()
 				agg.add(o)
 				mu.Unlock()
+				if wdCount >= 2 || deathCount >= 6 {
+					// this worker keeps hitting the watchdog / keeps dying: the tree is broken in a way that makes
+					// every further case cost minutes; what was seen is reported, the rest of its share is not run
+					return
+				}
 				from = open + 1
 			}
 		}(i)
@@ -645,7 +694,16 @@ func (a *Aggregate) add(o *Outcome) {
 		a.Crashes++
 	}
 	for _, v := range o.Violations {
-		a.Violations = append(a.Violations, CaseViolation{Case: o.Case, V: v, Witness: o.Witness})
+		// the witness is kept for the first case of each signature only (that is the one written to the replay file)
+		var w interface{}
+		if !a.sigSeen[v.Sig] {
+			if a.sigSeen == nil {
+				a.sigSeen = map[string]bool{}
+			}
+			a.sigSeen[v.Sig] = true
+			w = o.Witness
+		}
+		a.Violations = append(a.Violations, CaseViolation{Case: o.Case, V: v, Witness: w})
 	}
 }
 
@@ -688,6 +746,12 @@ func (a *Aggregate) finish(start time.Time, planned int) int {
 		cvs := bySig[sig]
 		nViol += len(cvs)
 		cv := cvs[0]
+		for _, cand := range cvs {
+			if cand.Witness != nil {
+				cv = cand // the case whose witness was kept
+				break
+			}
+		}
 		os.MkdirAll(replayDir, 0o755)
 		path := filepath.Join(replayDir, fmt.Sprintf("%s-s%d-%s-c%d.json", chk.ID, a.Seed, a.Tier, cv.Case))
 		rf := replayFile{Property: chk.ID, Tier: a.Tier, Seed: a.Seed, Case: cv.Case, Violation: cv.V, Witness: cv.Witness,
